@@ -3,6 +3,7 @@ package props
 import (
 	"bufio"
 	"fmt"
+	"github.com/AdguardTeam/urlfilter/filterlist"
 	"os"
 	"path/filepath"
 	"strings"
@@ -203,6 +204,24 @@ func checkC12Line(c c12Case, rec *Rec) *Violation {
 	_, _ = rules.NewHostRule(line, 42)
 	_, _ = rules.NewCosmeticRule(line, 42)
 	trimmed := strings.TrimSpace(line)
+	if trimmed == "" {
+		// nothing to parse: the engines over a storage without any list are built and queried instead
+		st, serr := filterlist.NewRuleStorage(nil)
+		if serr != nil {
+			return viol(id, "C12:harness", "storage: %v", serr)
+		}
+		e, ne, de := urlfilter.NewEngine(st), urlfilter.NewNetworkEngine(st), urlfilter.NewDNSEngine(st)
+		for _, q := range c.Reqs {
+			if q.Host {
+				_, _ = de.MatchRequest(mkDNSReq(q))
+				_ = e.GetCosmeticResult(q.Hostname, rules.CosmeticOptionAll)
+			} else {
+				_ = e.MatchRequest(mkReq(q))
+				_ = ne.MatchAll(mkReq(q))
+			}
+		}
+		rec.Label("line:blank(engines-without-lists)")
+	}
 	if c12IsCommentText(trimmed) {
 		rec.Label("line:comment")
 		if r != nil {
